@@ -19,6 +19,7 @@ import RsassModel.Value.MapFn
 import RsassModel.Value.Lemmas
 import RsassModel.Value.SimpleKeys
 import RsassModel.Value.StructKeys
+import RsassModel.Value.MapKeys
 import RsassModel.Num.XRatLaws
 namespace C13
 open Val Num OM
@@ -294,6 +295,35 @@ theorem color_eq_not_transitive :
     V.eq Val.spec env0 (.color ⟨0, 1⟩ ⟨0, 1⟩ ⟨0, 1⟩ one) (.color ⟨6, 10 ^ 8⟩ ⟨0, 1⟩ ⟨0, 1⟩ one) = true
     ∧ V.eq Val.spec env0 (.color ⟨6, 10 ^ 8⟩ ⟨0, 1⟩ ⟨0, 1⟩ one) (.color ⟨12, 10 ^ 8⟩ ⟨0, 1⟩ ⟨0, 1⟩ one) = true
     ∧ V.eq Val.spec env0 (.color ⟨0, 1⟩ ⟨0, 1⟩ ⟨0, 1⟩ one) (.color ⟨12, 10 ^ 8⟩ ⟨0, 1⟩ ⟨0, 1⟩ one) = false := by
+  decide +kernel
+
+/-- MAPS AS KEYS: on maps whose keys and values are structured keys, the set-like map `==` (same
+length, inclusion both ways — specification and code since 3dd7990) is an equivalence: it is
+"same length and the same set of canonical (key, value) pairs" (`Val.mapEq_good_iff`). -/
+theorem keys_equivalence_maps (q : ValQuirks) (hq : q.strEqSameQuotesRaw = false)
+    (hm1 : q.mapEqOrdered = false) (hm2 : q.mapEqOneSided = false) (env : Env ν) :
+    KEquiv (keqMap q env) := kequiv_map q hq hm1 hm2 env
+
+/-- the "other keys" laws for maps used as keys, on the code as it is today, no hypothesis on `==` -/
+theorem get_set_other_mapkeys (env : Env ν) (m : List (MapKey ν × V ν)) (k k' : MapKey ν) (v : V ν)
+    (h : keqMap asis env k k' = false) :
+    OM.get (keqMap asis env) (OM.insert (keqMap asis env) m k v).1 k' = OM.get (keqMap asis env) m k' :=
+  get_set_other_equiv (keqMap asis env) (kequiv_map asis rfl rfl rfl env) m k k' v h
+
+theorem merge_values_right_wins_mapkeys (env : Env ν) (m1 m2 : List (MapKey ν × V ν))
+    (hd : OM.NoDup (keqMap asis env) m2) (k : MapKey ν) (v : V ν) (hm : (k, v) ∈ m2) :
+    OM.get (keqMap asis env) (OM.merge (keqMap asis env) m1 m2) k = some v :=
+  merge_values_right_wins (keqMap asis env) (kequiv_map asis rfl rfl rfl env) m1 m2 hd k v hm
+
+/-- with the one-sided comparison of commit 001310e map `==` was not even symmetric on such maps
+needing numbers; on structured keys the hypothesis `mapEqOrdered = false` matters: the derived
+ordered comparison is an equivalence too, but a different (finer) one — `(a: x, b: y)` and
+`(b: y, a: x)` were different keys. -/
+theorem map_keys_ordered_are_finer :
+    V.eq asisOld env0 (.map [(.str [97] .none, .tt), (.str [98] .none, .ff)])
+        (.map [(.str [98] .none, .ff), (.str [97] .none, .tt)]) = false
+    ∧ V.eq asis env0 (.map [(.str [97] .none, .tt), (.str [98] .none, .ff)])
+        (.map [(.str [98] .none, .ff), (.str [97] .none, .tt)]) = true := by
   decide +kernel
 
 end C13
